@@ -478,6 +478,12 @@ def pattern_f32tof64(context, tree, c0):
     return dst
 
 
+@sse1_isa.pattern("regfp32", "F32TOF32(regfp32)", size=0, cycles=0, energy=0)
+@sse2_isa.pattern("regfp64", "F64TOF64(regfp64)", size=0, cycles=0, energy=0)
+def pattern_float_identity_cast(context, tree, c0):
+    return c0
+
+
 # I64:
 @sse1_isa.pattern("reg64", "F32TOI64(rmf32)", size=6, cycles=2, energy=2)
 @sse1_isa.pattern("reg64", "F32TOU64(rmf32)", size=6, cycles=2, energy=2)
